@@ -341,11 +341,11 @@ theorem pend_remove {t : Table} (hn : UidNodup t) {rx : Option Held} (hp : Pend 
   fun z hz => hp z ((mem_remove t hn uid z).1 hz).1
 
 /-- only the allocator positions changed -/
-theorem tinv_congr {t t' : Table} (ht : TInv t) (hs : t'.sessions = t.sessions) (hu : t'.nextUid = t.nextUid)
+theorem tinv_congr {t t' : Table} (ht : TInv t) (hs : t'.sessions = t.sessions) (hu : t.nextUid ≤ t'.nextUid)
     (h1 : 1 ≤ t'.nextSid ∧ t'.nextSid ≤ 65535) (h2 : 1 ≤ t'.nextExch ∧ t'.nextExch ≤ 65535) : TInv t' := by
   refine ⟨?_, ?_, ?_, ?_, ?_, ?_, h1, h2, ?_⟩
   · unfold UidNodup; rw [hs]; exact ht.uidN
-  · intro z hz; rw [hs] at hz; rw [hu]; exact ht.uidB z hz
+  · intro z hz; rw [hs] at hz; exact Nat.lt_of_lt_of_le (ht.uidB z hz) hu
   · rw [hs]; exact ht.keyI
   · rw [hs]; exact ht.shape
   · rw [hs]; exact ht.nSess
@@ -357,10 +357,10 @@ theorem nextExchId_nextUid (t : Table) : t.nextExchId.1.nextUid = t.nextUid := r
 theorem nextExchId_nextSid (t : Table) : t.nextExchId.1.nextSid = t.nextSid := rfl
 
 theorem tinv_nextExchId {t : Table} (ht : TInv t) : TInv t.nextExchId.1 :=
-  tinv_congr ht rfl rfl ht.sidR (by unfold Table.nextExchId; exact allocLoop_next_range _ _ _)
+  tinv_congr ht rfl (Nat.le_refl _) ht.sidR (by unfold Table.nextExchId; exact allocLoop_next_range _ _ _)
 
 theorem tinv_nextSessId {t : Table} (ht : TInv t) : TInv t.nextSessId.1 :=
-  tinv_congr ht rfl rfl (by unfold Table.nextSessId; exact allocLoop_next_range _ _ _) ht.xidR
+  tinv_congr ht rfl (Nat.le_refl _) (by unfold Table.nextSessId; exact allocLoop_next_range _ _ _) ht.xidR
 
 /-! ### `get` / `get_for_rx` -/
 
@@ -712,10 +712,10 @@ theorem removeExch_shape (s : Sess) (i : Nat) (e : Exch) (hs : s.slot i = some e
   split
   · refine ⟨⟨rfl, rfl, rfl, rfl, rfl⟩, by simp, fun j => ?_⟩
     rw [slot_set]
-    split <;> simp [hlt]
+    split <;> simp
   · refine ⟨⟨rfl, rfl, rfl, rfl, rfl⟩, by simp, fun j => ?_⟩
     rw [slot_set]
-    split <;> simp [hlt]
+    split <;> simp
 
 /-- an update that frees slot `i` or moves it to a dropped state -/
 theorem quiet_dropUpdate {t : Table} {s y : Sess} (hs : s ∈ t.sessions) (hsame : Same s y)
@@ -808,5 +808,622 @@ theorem quiet_accept (t : Table) (uid i now : Nat) : Quiet t (t.accept uid i now
           rename_i hrole
           refine ⟨{ e with role := .ro }, by rw [slot_set]; simp [hlt], rfl, by rw [hrole]; rfl, by simp⟩
       · exact ⟨ht1, hp1⟩
+
+/-! ### node steps: `send`, `dropEx`, `initiate`, `accept` -/
+
+theorem owned_ne_rp {r : RoleSt} (h : (!RoleSt.isOwned r) = false) : r ≠ .rp := by
+  cases r <;> simp [RoleSt.isOwned] at h ⊢
+
+theorem inv_send {n : Node} (h : Inv n) (uid idx : Nat) (rel : Bool) : Inv (send n uid idx rel).1 := by
+  unfold send
+  cases hs : n.t.sess uid with
+  | none => rw [get_absent hs]; exact h
+  | some s =>
+    obtain ⟨hm, hu⟩ := sess_some_mem n.t uid s hs
+    subst hu
+    obtain ⟨ht1, hp1, hm1⟩ := get_inv h.tinv h.pend hm n.now
+    rw [get_mem h.tinv.uidN hm]
+    simp only
+    cases he : (touch s n.now).slot idx with
+    | none => exact h
+    | some e =>
+      simp only
+      split
+      · exact h
+      · rename_i hown
+        obtain ⟨m, h1, h2, h3⟩ := preSend_shape (touch s n.now) idx e he rel none none
+        have hq := quiet_mrpUpdate hm1 h1 h2 he (owned_ne_rp (by simpa using hown)) h3 n.rx ht1 hp1
+        exact ⟨hq.1, hq.2, h.time⟩
+
+theorem inv_dropEx {n : Node} (h : Inv n) (uid idx : Nat) : Inv (dropEx n uid idx).1 := by
+  unfold dropEx
+  split
+  · exact h
+  · split
+    · exact h
+    · exact quiet_inv h (quiet_dropExchange n.t uid idx n.now)
+
+theorem inv_initiate {n : Node} (h : Inv n) (uid : Nat) : Inv (initiate n uid).1 :=
+  quiet_inv h (quiet_initiate n.t uid n.now)
+
+theorem inv_accept {n : Node} (h : Inv n) : Inv (accept n).1 := by
+  unfold accept
+  split
+  · exact h
+  · rename_i r hr
+    have hq := quiet_getForRx n.t r.m.port r.m.sid n.now
+    dsimp only
+    split
+    · exact quiet_inv h hq
+    · split
+      · exact quiet_inv h hq
+      · exact quiet_inv h (hq.trans (quiet_accept _ _ _ _))
+
+/-! ### `recv` -/
+
+theorem inv_recv {n : Node} (h : Inv n) (uid idx : Nat) : Inv (recv n uid idx).1 := by
+  unfold recv
+  cases hs : n.t.sess uid with
+  | none => rw [get_absent hs]; exact h
+  | some s =>
+    obtain ⟨hm, hu⟩ := sess_some_mem n.t uid s hs
+    subst hu
+    obtain ⟨ht1, hp1, hm1⟩ := get_inv h.tinv h.pend hm n.now
+    rw [get_mem h.tinv.uidN hm]
+    simp only
+    cases he : (touch s n.now).slot idx with
+    | none => exact h
+    | some e =>
+      simp only
+      split
+      · exact h
+      · rename_i hown
+        split
+        · exact ⟨ht1, hp1, h.time⟩
+        · cases hrx : n.rx with
+          | none =>
+            rw [hrx] at hp1
+            exact ⟨ht1, hp1, by intro r hr; simp at hr⟩
+          | some r =>
+            rw [hrx] at hp1
+            have htime := h.time
+            rw [hrx] at htime
+            simp only
+            split
+            · rename_i hmatch
+              refine ⟨ht1, ?_, fun r hr => by cases hr⟩
+              simp only
+              rw [pend_none_iff]
+              intro z hz j f hf hrole
+              obtain ⟨r', hr', h1, h2, _⟩ := hp1 z hz j f hf hrole
+              cases hr'
+              simp only [recvMatch, Bool.and_eq_true] at hmatch
+              obtain ⟨hzs, hji⟩ := claim_unique ht1 hz hm1 h1 hmatch.1 hf he h2 hmatch.2
+              subst hzs; subst hji
+              rw [he] at hf
+              cases hf
+              exact owned_ne_rp (by simpa using hown) hrole
+            · exact ⟨ht1, hp1, htime⟩
+
+/-! ### the sweeps -/
+
+theorem isDropped_ne_rp {r : RoleSt} (h : r = .rp) : r.isDropped = false := by subst h; rfl
+
+theorem sweepAccept_spec {t : Table} (ht : TInv t) (r : Held) (hp : Pend t (some r)) (now : Nat) :
+    TInv (t.sweepAccept r.m.port r.m.sid r.m.hdr now).1 ∧
+    ((t.sweepAccept r.m.port r.m.sid r.m.hdr now).2 = false → Pend (t.sweepAccept r.m.port r.m.sid r.m.hdr now).1 (some r)) ∧
+    ((t.sweepAccept r.m.port r.m.sid r.m.hdr now).2 = true → NoPending (t.sweepAccept r.m.port r.m.sid r.m.hdr now).1) := by
+  unfold Table.sweepAccept
+  rcases getForRx_cases t ht r.m.port r.m.sid now with ⟨s, hs, hf, hg⟩ | ⟨_, hg⟩
+  · rw [hg]
+    obtain ⟨ht1, hp1, hm1⟩ := get_inv ht hp hs now
+    simp only
+    cases hx : (touch s now).getExchForRx r.m.hdr with
+    | none => exact ⟨ht1, (fun _ => hp1), (fun h => by cases h)⟩
+    | some i =>
+      simp only
+      obtain ⟨e, he, hfor⟩ := getExchForRx_slot _ _ _ hx
+      rw [he]
+      simp only
+      split
+      · rename_i hc
+        have hrp : e.role = .rp := by
+          simp only [Bool.and_eq_true, decide_eq_true_eq] at hc; exact hc.1
+        have hlt := slot_lt _ i e he
+        have hq := quiet_dropUpdate
+          (y := { touch s now with exchs := (touch s now).exchs.set i (some { e with role := .rd }) })
+          hm1 ⟨rfl, rfl, rfl, rfl, rfl⟩ (by simp) he
+          (fun j hj => by rw [slot_set]; simp [Ne.symm hj])
+          (Or.inr ⟨{ e with role := .rd }, by rw [slot_set]; simp [hlt], rfl,
+            by (rw [hrp]; rfl), by simp⟩)
+          (some r) ht1 hp1
+        refine ⟨hq.1, (fun h => by cases h), fun _ => ?_⟩
+        intro z hz j f hf' hrole
+        obtain ⟨r', hr', h1, h2, _⟩ := hq.2 z hz j f hf' hrole
+        cases hr'
+        have hy := mem_setSess_self (y := { touch s now with exchs := (touch s now).exchs.set i (some { e with role := .rd }) })
+          ht1.uidN hm1 rfl
+        have hyf : ({ touch s now with exchs := (touch s now).exchs.set i (some { e with role := .rd }) } : Sess).isForRx
+            r.m.port r.m.sid = true := hf
+        have hys : ({ touch s now with exchs := (touch s now).exchs.set i (some { e with role := .rd }) } : Sess).slot i
+            = some { e with role := .rd } := by rw [slot_set]; simp [hlt]
+        have hye : ({ e with role := .rd } : Exch).isForRx r.m.hdr = true := by
+          simp only [Exch.isForRx] at hfor ⊢
+          rw [hrp] at hfor
+          exact hfor
+        obtain ⟨hzs, hji⟩ := claim_unique hq.1 hz hy h1 hyf hf' hys h2 hye
+        subst hzs; subst hji
+        rw [hys] at hf'
+        cases hf'
+        cases hrole
+      · exact ⟨ht1, (fun _ => hp1), (fun h => by cases h)⟩
+  · rw [hg]
+    exact ⟨ht, (fun _ => hp), (fun h => by cases h)⟩
+
+theorem sweepOrphan_spec {t : Table} (ht : TInv t) (r : Held) (hp : Pend t (some r)) (now : Nat) :
+    TInv (t.sweepOrphan r.m.port r.m.sid r.m.hdr now).1 ∧
+    Pend (t.sweepOrphan r.m.port r.m.sid r.m.hdr now).1 (some r) ∧
+    ((t.sweepOrphan r.m.port r.m.sid r.m.hdr now).2 = true → NoPending (t.sweepOrphan r.m.port r.m.sid r.m.hdr now).1) := by
+  unfold Table.sweepOrphan
+  rcases getForRx_cases t ht r.m.port r.m.sid now with ⟨s, hs, hf, hg⟩ | ⟨hnone, hg⟩
+  · rw [hg]
+    obtain ⟨ht1, hp1, hm1⟩ := get_inv ht hp hs now
+    simp only
+    have key : ∀ z ∈ (t.setSess (touch s now)).sessions, ∀ j f, z.slot j = some f → f.role = .rp →
+        z = touch s now ∧ (touch s now).getExchForRx r.m.hdr = some j := by
+      intro z hz j f hf' hrole
+      obtain ⟨r', hr', h1, h2, _⟩ := hp1 z hz j f hf' hrole
+      cases hr'
+      have hzs : z = touch s now := by
+        simp only [Sess.isForRx, Bool.and_eq_true, beq_iff_eq] at h1 hf
+        have hu := ht1.keyI z hz _ hm1 (by rw [h1.1.1.1]; exact hf.1.1.1.symm) (by rw [h1.1.1.2]; exact hf.1.1.2.symm)
+        exact nodup_map_inj (fun (x : Sess) => x.uid) _ ht1.uidN z hz _ hm1 hu
+      subst hzs
+      exact ⟨rfl, getExchForRx_of_slot _ (ht1.uniq _ hm1) _ j f hf' h2⟩
+    cases hx : (touch s now).getExchForRx r.m.hdr with
+    | none =>
+      refine ⟨ht1, hp1, fun _ => ?_⟩
+      intro z hz j f hf' hrole
+      have := (key z hz j f hf' hrole).2
+      rw [hx] at this; cases this
+    | some i =>
+      simp only
+      cases he : (touch s now).slot i with
+      | none =>
+        refine ⟨ht1, hp1, fun _ => ?_⟩
+        intro z hz j f hf' hrole
+        obtain ⟨hzs, hj⟩ := key z hz j f hf' hrole
+        subst hzs
+        rw [hx] at hj; cases hj
+        rw [he] at hf'; cases hf'
+      | some e =>
+        simp only
+        refine ⟨ht1, hp1, fun hd => ?_⟩
+        intro z hz j f hf' hrole
+        obtain ⟨hzs, hj⟩ := key z hz j f hf' hrole
+        subst hzs
+        rw [hx] at hj; cases hj
+        rw [he] at hf'; cases hf'
+        rw [isDropped_ne_rp hrole] at hd
+        cases hd
+  · rw [hg]
+    refine ⟨ht, hp, fun _ => ?_⟩
+    intro z hz j f hf' hrole
+    obtain ⟨r', hr', h1, _⟩ := hp z hz j f hf' hrole
+    cases hr'
+    rw [hnone z hz] at h1
+    cases h1
+
+theorem inv_sweepAccept {n : Node} (h : Inv n) : Inv (sweepAccept n).1 := by
+  unfold sweepAccept
+  cases hrx : n.rx with
+  | none => exact h
+  | some r =>
+    have hp : Pend n.t (some r) := by rw [← hrx]; exact h.pend
+    have htime := h.time
+    rw [hrx] at htime
+    simp only
+    obtain ⟨h1, h2, h3⟩ := sweepAccept_spec h.tinv r hp n.now
+    cases hw : (n.t.sweepAccept r.m.port r.m.sid r.m.hdr n.now).2 with
+    | true => exact ⟨h1, (h3 hw).pend _, fun r hr => by cases hr⟩
+    | false => exact ⟨h1, h2 hw, htime⟩
+
+theorem inv_sweepOrphan {n : Node} (h : Inv n) : Inv (sweepOrphan n).1 := by
+  unfold sweepOrphan
+  cases hrx : n.rx with
+  | none => exact h
+  | some r =>
+    have hp : Pend n.t (some r) := by rw [← hrx]; exact h.pend
+    have htime := h.time
+    rw [hrx] at htime
+    simp only
+    obtain ⟨h1, h2, h3⟩ := sweepOrphan_spec h.tinv r hp n.now
+    cases hw : (n.t.sweepOrphan r.m.port r.m.sid r.m.hdr n.now).2 with
+    | true => exact ⟨h1, (h3 hw).pend _, fun r hr => by cases hr⟩
+    | false => exact ⟨h1, h2, htime⟩
+
+/-! ### the dropped-exchange closer -/
+
+theorem quiet_sweepDropped (t : Table) (now : Nat) : Quiet t (t.sweepDropped now).1 := by
+  intro rx ht hp
+  unfold Table.sweepDropped
+  cases h1 : findDropped true t.sessions with
+  | some p =>
+    obtain ⟨uid, i0⟩ := p
+    simp only
+    have e1 : t.get uid now = ((t.get uid now).1, (t.get uid now).2) := rfl
+    rw [e1]
+    simp only
+    have e2 : (t.get uid now).1.nextExchId = ((t.get uid now).1.nextExchId.1, (t.get uid now).1.nextExchId.2) := rfl
+    rw [e2]
+    simp only
+    have q12 := (quiet_get t uid now).trans (quiet_nextExchId _)
+    split
+    · have e3 : (t.get uid now).1.nextExchId.1.remove uid =
+        (((t.get uid now).1.nextExchId.1.remove uid).1, ((t.get uid now).1.nextExchId.1.remove uid).2) := rfl
+      rw [e3]
+      exact (q12.trans (quiet_remove _ uid)) rx ht hp
+    · exact q12 rx ht hp
+  | none =>
+    simp only
+    cases h2 : findDropped false t.sessions with
+    | none => exact ⟨ht, hp⟩
+    | some p =>
+      obtain ⟨uid, i⟩ := p
+      simp only
+      cases hs : t.sess uid with
+      | none => rw [get_absent hs]; exact ⟨ht, hp⟩
+      | some s =>
+        obtain ⟨hm, hu⟩ := sess_some_mem t uid s hs
+        subst hu
+        obtain ⟨ht1, hp1, hm1⟩ := get_inv ht hp hm now
+        rw [get_mem ht.uidN hm]
+        simp only
+        cases he : (touch s now).slot i with
+        | none => exact ⟨ht1, hp1⟩
+        | some e =>
+          simp only
+          have hlt := slot_lt _ i e he
+          split
+          · obtain ⟨m, k1, k2, k3⟩ := preSend_shape (touch s now) i e he false none none
+            have hq := quiet_dropUpdate
+              (y := { ((touch s now).preSend (some i) false none none).1 with
+                exchs := ((touch s now).preSend (some i) false none none).1.exchs.set i none })
+              hm1 ⟨k1.uid, k1.lsid, k1.port, k1.mode, k1.rsv⟩ (by simp only [List.length_set]; exact k2) he
+              (fun j hj => by rw [slot_set]; simp only [Ne.symm hj, ↓reduceIte]; rw [k3 j]; simp [Ne.symm hj])
+              (Or.inl (by rw [slot_set]; simp [k2, hlt])) rx ht1 hp1
+            split <;> exact hq
+          · exact quiet_dropUpdate
+              (y := { touch s now with exchs := (touch s now).exchs.set i none })
+              hm1 ⟨rfl, rfl, rfl, rfl, rfl⟩ (by simp) he
+              (fun j hj => by rw [slot_set]; simp [Ne.symm hj])
+              (Or.inl (by rw [slot_set]; simp [hlt])) rx ht1 hp1
+
+theorem inv_closer {n : Node} (h : Inv n) : Inv (closer n).1 :=
+  quiet_inv h (quiet_sweepDropped n.t n.now)
+
+/-! ### a new session enters the table -/
+
+/-- the session `Sessions::add` creates -/
+def freshSess (uid ctr now port : Nat) (r : Bool) : Sess :=
+  { uid := uid, ctr := ctr % (Consts.msgCtrRange + 1), reserved := r, lastUse := now, port := port }
+
+/-- membership after `add` succeeded -/
+theorem mem_add_ok {t : Table} {ctr : Nat} {r : Bool} {now port uid : Nat}
+    (h : (t.add ctr r now port).2 = .ok uid) (z : Sess) :
+    z ∈ (t.add ctr r now port).1.sessions ↔ z ∈ t.sessions ∨ z = freshSess uid ctr now port r := by
+  rw [(add_ok_sessions t ctr r now port uid h).2.2]
+  simp [freshSess]
+
+theorem add_counters (t : Table) (ctr : Nat) (r : Bool) (now port : Nat) :
+    (t.add ctr r now port).1.nextSid = t.nextSid ∧ (t.add ctr r now port).1.nextExch = t.nextExch := by
+  unfold Table.add
+  by_cases hc : t.sessions.length ≥ Consts.maxSessions <;> simp [hc]
+
+/-- a table that consists of the sessions of `t` and one new session `y` with a fresh uid and a fresh
+receive key is well-shaped -/
+theorem tinv_insert {t t' : Table} (ht : TInv t) (y : Sess)
+    (hmem : ∀ z, z ∈ t'.sessions ↔ z ∈ t.sessions ∨ z = y)
+    (hn : UidNodup t') (hb : UidBelow t') (hlen : t'.sessions.length ≤ Consts.maxSessions)
+    (h1 : 1 ≤ t'.nextSid ∧ t'.nextSid ≤ 65535) (h2 : 1 ≤ t'.nextExch ∧ t'.nextExch ≤ 65535)
+    (hyk : ∀ s ∈ t.sessions, s.localSid = y.localSid → s.port ≠ y.port)
+    (hys : y.reserved = false ∧ y.mode.enc = (y.localSid != 0)) (hye : y.exchs = []) : TInv t' := by
+  have hyslot : ∀ i, y.slot i = none := by intro i; simp [Sess.slot, hye]
+  refine ⟨hn, hb, ?_, ?_, hlen, ?_, h1, h2, ?_⟩
+  · intro a ha b hb' k1 k2
+    rcases (hmem a).1 ha with ma | ea <;> rcases (hmem b).1 hb' with mb | eb
+    · exact ht.keyI a ma b mb k1 k2
+    · rw [eb] at k1 k2; exact absurd k2 (hyk a ma k1)
+    · rw [ea] at k1 k2; exact absurd k2.symm (hyk b mb k1.symm)
+    · rw [ea, eb]
+  · intro z hz
+    rcases (hmem z).1 hz with mz | ez
+    · exact ht.shape z mz
+    · rw [ez]; exact hys
+  · intro z hz
+    rcases (hmem z).1 hz with mz | ez
+    · exact ht.nExch z mz
+    · rw [ez, hye]; simp
+  · intro z hz
+    rcases (hmem z).1 hz with mz | ez
+    · exact ht.uniq z mz
+    · rw [ez]; intro i j e f hi; rw [hyslot i] at hi; cases hi
+
+theorem pend_insert {t t' : Table} {rx : Option Held} (hp : Pend t rx) (y : Sess)
+    (hmem : ∀ z, z ∈ t'.sessions ↔ z ∈ t.sessions ∨ z = y) (hye : y.exchs = []) : Pend t' rx := by
+  intro z hz i e he hr
+  rcases (hmem z).1 hz with mz | ez
+  · exact hp z mz i e he hr
+  · rw [ez] at he; simp [Sess.slot, hye] at he
+
+theorem add_nextUid_le (t : Table) (ctr : Nat) (r : Bool) (now port : Nat) (hw : t.nextUid < 0x0fffffff) :
+    t.nextUid ≤ (t.add ctr r now port).1.nextUid := by
+  unfold Table.add
+  have : ¬ t.nextUid + 1 > 0x0fffffff := by omega
+  by_cases hc : t.sessions.length ≥ Consts.maxSessions <;> simp [hc, this]
+
+/-- `add` refused: only the id allocator moved -/
+theorem tinv_add_err {t : Table} (ht : TInv t) {ctr : Nat} {r : Bool} {now port : Nat} {e : Err}
+    (hw : t.nextUid < 0x0fffffff) (h : (t.add ctr r now port).2 = .error e) : TInv (t.add ctr r now port).1 :=
+  tinv_congr ht (add_err_sessions t ctr r now port e h) (add_nextUid_le t ctr r now port hw)
+    (by rw [(add_counters t ctr r now port).1]; exact ht.sidR) (by rw [(add_counters t ctr r now port).2]; exact ht.xidR)
+
+/-- the secure session `establish` puts into the table -/
+def secSess (uid ctr now port sid : Nat) (mode : Mode) : Sess :=
+  { freshSess uid ctr now port false with localSid := sid, mode := mode }
+
+theorem inv_establish {n : Node} (h : Inv n) (hw : n.t.nextUid < 0x0fffffff) (port : Nat) (mode : Mode) (ctr : Nat) :
+    Inv (establish n port mode ctr).1 := by
+  unfold establish
+  split
+  · exact h
+  · rename_i henc
+    simp only
+    have hta := tinv_nextSessId h.tinv
+    have hfresh := nextSessId_fresh h.tinv
+    have hwa : n.t.nextSessId.1.nextUid < 0x0fffffff := hw
+    obtain ⟨hnb, hbb⟩ := add_uid_inv n.t.nextSessId.1 ctr false n.now port hta.uidN hta.uidB hwa
+    split
+    · rename_i uid hok
+      obtain ⟨hu, hlt, hss⟩ := add_ok_sessions _ _ _ _ _ _ hok
+      have hmemb := mem_add_ok hok
+      have hm0 := (hmemb (freshSess uid ctr n.now port false)).2 (Or.inr rfl)
+      have hs0 : (n.t.nextSessId.1.add ctr false n.now port).1.sess uid = some (freshSess uid ctr n.now port false) :=
+        (sess_eq_some_iff _ hnb uid _).2 ⟨hm0, rfl⟩
+      rw [hs0]
+      simp only
+      have hmem := mem_setSess _ hnb (secSess uid ctr n.now port n.t.nextSessId.2 mode) ⟨_, hm0, rfl⟩
+      have hmem2 : ∀ z, z ∈ ((n.t.nextSessId.1.add ctr false n.now port).1.setSess
+          (secSess uid ctr n.now port n.t.nextSessId.2 mode)).sessions ↔
+          z ∈ n.t.nextSessId.1.sessions ∨ z = secSess uid ctr n.now port n.t.nextSessId.2 mode := by
+        intro z
+        rw [hmem z]
+        constructor
+        · rintro (hz | ⟨hz, hne⟩)
+          · exact Or.inr hz
+          · rcases (hmemb z).1 hz with mz | ez
+            · exact Or.inl mz
+            · rw [ez] at hne; exact absurd rfl hne
+        · rintro (hz | hz)
+          · right
+            refine ⟨(hmemb z).2 (Or.inl hz), ?_⟩
+            have := hta.uidB z hz
+            show z.uid ≠ uid
+            omega
+          · exact Or.inl hz
+      show Inv { n with t := ((n.t.nextSessId.1.add ctr false n.now port).1.setSess (secSess uid ctr n.now port n.t.nextSessId.2 mode)) }
+      refine ⟨?_, ?_, h.time⟩
+      · refine tinv_insert hta _ hmem2 (setSess_uidNodup _ _ hnb) ?_ ?_ ?_ ?_ ?_ ?_ rfl
+        · intro z hz
+          rw [setSess_nextUid]
+          rcases (hmem2 z).1 hz with mz | ez
+          · exact hbb z ((hmemb z).2 (Or.inl mz))
+          · rw [ez]; exact hbb (freshSess uid ctr n.now port false) hm0
+        · rw [setSess_length, hss]; simp; omega
+        · rw [setSess_nextSid, (add_counters _ _ _ _ _).1]; exact hta.sidR
+        · rw [setSess_nextExch, (add_counters _ _ _ _ _).2]; exact hta.xidR
+        · intro z hz hk
+          exact absurd hk (hfresh.2 z hz)
+        · refine ⟨rfl, ?_⟩
+          have h1 := hfresh.1
+          have : (n.t.nextSessId.2 != 0) = true := by simp; omega
+          show mode.enc = (n.t.nextSessId.2 != 0)
+          rw [this]
+          simpa using henc
+      · exact pend_insert h.pend _ hmem2 rfl
+    · rename_i er herr
+      exact ⟨tinv_add_err hta hwa herr, by
+        intro z hz; rw [add_err_sessions _ _ _ _ _ _ herr] at hz; exact h.pend z hz, h.time⟩
+
+/-! ### a datagram arrives -/
+
+theorem exchUniq_postRecv (s : Sess) (h : RxHdr) (now : Nat) (hu : ExchUniq s) : ExchUniq (s.postRecv h now).1 := by
+  cases hr : (s.postRecv h now).2 with
+  | error er =>
+    have := (postRecv_effect s h now).2.2 er hr
+    exact exchUniq_of_slots s _ hu this
+  | ok b =>
+    obtain ⟨i, e, hsl, hfor, _, hrest, hold, hnew⟩ := postRecv_ok s h now b hr
+    cases b with
+    | false =>
+      obtain ⟨e0, he0, hid, hrole⟩ := hold rfl
+      apply exchUniq_of_keys s _ hu
+      intro k e' hk
+      by_cases hki : k = i
+      · subst hki
+        rw [hsl] at hk
+        simp only [Option.some.injEq] at hk
+        subst hk
+        exact ⟨e0, he0, hid.symm, by rw [hrole]⟩
+      · exact ⟨e', by rw [← hrest k hki]; exact hk, rfl, rfl⟩
+    | true =>
+      obtain ⟨hfree, _, _, hgn⟩ := hnew rfl
+      have hnone := getExchForRx_none s h hgn
+      simp only [Exch.isForRx, Bool.and_eq_true, beq_iff_eq] at hfor
+      intro a b x y hxa hyb hid hrole
+      by_cases h1 : a = i <;> by_cases h2 : b = i
+      · rw [h1, h2]
+      · exfalso
+        subst h1
+        rw [hsl] at hxa
+        simp only [Option.some.injEq] at hxa
+        subst hxa
+        rw [hrest b h2] at hyb
+        exact hnone b y hyb ⟨by rw [← hid]; exact hfor.1, by rw [← hrole]; exact hfor.2.symm⟩
+      · exfalso
+        subst h2
+        rw [hsl] at hyb
+        simp only [Option.some.injEq] at hyb
+        subst hyb
+        rw [hrest a h1] at hxa
+        exact hnone a x hxa ⟨by rw [hid]; exact hfor.1, by rw [hrole]; exact hfor.2.symm⟩
+      · rw [hrest a h1] at hxa
+        rw [hrest b h2] at hyb
+        exact hu a b x y hxa hyb hid hrole
+
+theorem noPending_setSess {t : Table} (hn : UidNodup t) (hnp : NoPending t) {s y : Sess} (hs : s ∈ t.sessions)
+    (hu : y.uid = s.uid) (hy : ∀ i e, y.slot i = some e → e.role ≠ .rp) : NoPending (t.setSess y) := by
+  intro z hz i e he
+  rcases (mem_setSess t hn y ⟨s, hs, hu.symm⟩ z).1 hz with h | ⟨h, _⟩
+  · subst h; exact hy i e he
+  · exact hnp z h i e he
+
+theorem noPending_remove {t : Table} (hn : UidNodup t) (hnp : NoPending t) (uid : Nat) : NoPending (t.remove uid).1 :=
+  fun z hz => hnp z ((mem_remove t hn uid z).1 hz).1
+
+theorem inv_finishArrive {n : Node} (hrx : n.rx = none) {t : Table} (ht : TInv t) (hnp : NoPending t)
+    {s : Sess} (hs : s ∈ t.sessions) (m : Msg) (hf : s.isForRx m.port m.sid = true) :
+    Inv (finishArrive n t s m).1 := by
+  unfold finishArrive
+  simp only
+  have hsame := postRecv_same s m.hdr n.now (ht.nExch s hs)
+  have hu := exchUniq_postRecv s m.hdr n.now (ht.uniq s hs)
+  have ht1 : TInv (t.setSess (s.postRecv m.hdr n.now).1) := tinv_setSess ht hs hsame.1 hsame.2 hu
+  have hy := mem_setSess_self (y := (s.postRecv m.hdr n.now).1) ht.uidN hs hsame.1.uid
+  have hmem := mem_setSess t ht.uidN (s.postRecv m.hdr n.now).1 ⟨s, hs, hsame.1.uid.symm⟩
+  have hnone : ∀ r, (none : Option Held) = some r → r.arrivedAt ≤ n.now := fun r hr => by cases hr
+  -- the table after an outcome that opened nothing has no accept-pending exchange
+  have quietNP : (∀ i e, (s.postRecv m.hdr n.now).1.slot i = some e → e.role ≠ .rp) →
+      NoPending (t.setSess (s.postRecv m.hdr n.now).1) :=
+    fun h => noPending_setSess ht.uidN hnp hs hsame.1.uid h
+  have errNP : ∀ er, (s.postRecv m.hdr n.now).2 = .error er →
+      NoPending (t.setSess (s.postRecv m.hdr n.now).1) := by
+    intro er hr
+    apply quietNP
+    intro i e he
+    rw [(postRecv_effect s m.hdr n.now).2.2 er hr i] at he
+    exact hnp s hs i e he
+  split
+  · rename_i new hr
+    obtain ⟨i, e, hsl, hfor, hstamp, hrest, hold, hnew⟩ := postRecv_ok s m.hdr n.now new hr
+    have oldNP : new = false → NoPending (t.setSess (s.postRecv m.hdr n.now).1) := by
+      intro hb
+      apply quietNP
+      intro j f hj
+      by_cases hji : j = i
+      · subst hji
+        rw [hsl] at hj
+        simp only [Option.some.injEq] at hj
+        subst hj
+        obtain ⟨e0, he0, _, hrole⟩ := hold hb
+        rw [hrole]; exact hnp s hs j e0 he0
+      · rw [hrest j hji] at hj; exact hnp s hs j f hj
+    have newOk : new = true → m.kind.newOk = true := fun hb => (hnew hb).2.2.1
+    split
+    · rename_i hk
+      have hb : new = false := by
+        cases new with
+        | false => rfl
+        | true => have := newOk rfl; rw [hk] at this; cases this
+      exact ⟨ht1, by rw [hrx]; exact (oldNP hb).pend _, by rw [hrx]; exact hnone⟩
+    · split
+      · rename_i hk
+        have hb : new = false := by
+          cases new with
+          | false => rfl
+          | true => have := newOk rfl; rw [hk] at this; cases this
+        exact ⟨tinv_remove ht1 _, by rw [hrx]; exact (noPending_remove ht1.uidN (oldNP hb) _).pend _,
+          by rw [hrx]; exact hnone⟩
+      · have hget := getExchForRx_of_slot _ hu m.hdr i e hsl hfor
+        rw [hget]
+        simp only
+        refine ⟨ht1, ?_, fun r hr => by cases hr; exact Nat.le_refl _⟩
+        intro z hz j f hj hrole
+        refine ⟨{ m := m, arrivedAt := n.now }, rfl, ?_⟩
+        rcases (hmem z).1 hz with hzy | ⟨hzt, _⟩
+        · subst hzy
+          by_cases hji : j = i
+          · subst hji
+            rw [hsl] at hj
+            simp only [Option.some.injEq] at hj
+            subst hj
+            exact ⟨by rw [hsame.1.isForRx]; exact hf, hfor, hstamp⟩
+          · rw [hrest j hji] at hj; exact absurd hrole (hnp s hs j f hj)
+        · exact absurd hrole (hnp z hzt j f hj)
+  · rename_i hr
+    have := errNP _ hr
+    exact ⟨tinv_remove (tinv_nextExchId ht1) _, by
+      rw [hrx]; exact (noPending_remove (tinv_nextExchId ht1).uidN this _).pend _, by rw [hrx]; exact hnone⟩
+  · rename_i er _ hr
+    exact ⟨ht1, by rw [hrx]; exact (errNP _ hr).pend _, by rw [hrx]; exact hnone⟩
+
+theorem quiet_evictSome (t : Table) (now : Nat) : Quiet t (evictSome t now).1 := by
+  unfold evictSome
+  split
+  · exact (quiet_nextExchId t).trans (quiet_remove _ _)
+  · exact Quiet.refl t
+
+theorem inv_arrive {n : Node} (h : Inv n) (hw : n.t.nextUid < 0x0fffffff) (m : Msg) (rnd : Nat) :
+    Inv (arrive n m rnd).1 := by
+  unfold arrive
+  cases hrx : n.rx with
+  | some r => exact h
+  | none =>
+    simp only
+    have hp0 : Pend n.t none := by rw [← hrx]; exact h.pend
+    have htime : ∀ r, (none : Option Held) = some r → r.arrivedAt ≤ n.now := fun r hr => by cases hr
+    rcases getForRx_cases n.t h.tinv m.port m.sid n.now with ⟨s, hs, hf, hg⟩ | ⟨hnone, hg⟩
+    · rw [hg]
+      obtain ⟨ht1, hp1, hm1⟩ := get_inv h.tinv hp0 hs n.now
+      simp only
+      exact inv_finishArrive hrx ht1 ((pend_none_iff _).1 hp1) hm1 m (by rw [(touch_same s n.now).isForRx]; exact hf)
+    · rw [hg]
+      simp only
+      split
+      · rename_i hcond
+        split
+        · rename_i uid hok
+          obtain ⟨hnb, hbb⟩ := add_uid_inv n.t rnd false n.now m.port h.tinv.uidN h.tinv.uidB hw
+          obtain ⟨hu, hlt, hss⟩ := add_ok_sessions _ _ _ _ _ _ hok
+          have hmemb := mem_add_ok hok
+          have hm0 := (hmemb (freshSess uid rnd n.now m.port false)).2 (Or.inr rfl)
+          have hs0 : (n.t.add rnd false n.now m.port).1.sess uid = some (freshSess uid rnd n.now m.port false) :=
+            (sess_eq_some_iff _ hnb uid _).2 ⟨hm0, rfl⟩
+          rw [hs0]
+          simp only
+          have htb : TInv (n.t.add rnd false n.now m.port).1 := by
+            refine tinv_insert h.tinv (freshSess uid rnd n.now m.port false) hmemb hnb hbb ?_ ?_ ?_ ?_ ⟨rfl, rfl⟩ rfl
+            · rw [hss]; simp; omega
+            · rw [(add_counters _ _ _ _ _).1]; exact h.tinv.sidR
+            · rw [(add_counters _ _ _ _ _).2]; exact h.tinv.xidR
+            · intro z hz hk hport
+              have hsh := h.tinv.shape z hz
+              have : z.isForRx m.port m.sid = true := by
+                have hk0 : z.localSid = 0 := hk
+                have hp0' : z.port = m.port := hport
+                simp [Sess.isForRx, hk0, hp0', hcond.1, hsh.1, hsh.2]
+              rw [hnone z hz] at this
+              cases this
+          have hnpb : NoPending (n.t.add rnd false n.now m.port).1 :=
+            (pend_none_iff _).1 (pend_insert hp0 _ hmemb rfl)
+          refine inv_finishArrive hrx htb hnpb hm0 m ?_
+          simp [Sess.isForRx, freshSess, hcond.1, Mode.enc]
+        · rename_i er herr
+          have htb := tinv_add_err h.tinv hw herr
+          have hpb : Pend (n.t.add rnd false n.now m.port).1 n.rx := by
+            intro z hz; rw [add_err_sessions _ _ _ _ _ _ herr] at hz; exact h.pend z hz
+          have hq := quiet_evictSome (n.t.add rnd false n.now m.port).1 n.now n.rx htb hpb
+          exact ⟨hq.1, by rw [← hrx]; exact hq.2, by rw [← hrx]; exact h.time⟩
+      · exact ⟨h.tinv, hp0, htime⟩
 
 end RxPath
